@@ -1309,7 +1309,7 @@ def run(ctx):
                     add(sp_, "fa", rvec(rng, sp_["dim"] ** 2), rvec(rng, sp_["dim"] ** 2), cell + "/fa")
                 if dim == 4 and (ctx.thorough or sp_["psf_name"] in ("asym3", "asym4", "gauss3", "sym3", "motion3", "big7")):
                     for op in ("gm", "T", "T_after_gm"):
-                        add(sp_, op, rvec(rng, dim * dim), rvec(rng, dim * dim), cell + "/" + op)
+                        add(sp_, op, rvec(rng, sp_["dim"] ** 2), rvec(rng, sp_["dim"] ** 2), cell + "/" + op)
 
     # a non-square custom PSF is refused at construction (the padded convolution has another shape than the image)
     for shp in ((3, 5), (4, 2)):
